@@ -1,4 +1,6 @@
 import Vflow.Proofs.Locks
+import Vflow.Proofs.LocksRun
+import Vflow.Proofs.LocksDeadlock
 import Vflow.Proofs.LockIR
 import Vflow.Gen.LockRegions
 /-!
@@ -39,6 +41,14 @@ theorem gen_nf9Insert_wb : wbRegion Gen.nf9ShardNo Gen.nf9Insert = true := by de
 theorem gen_nf9Retrieve_wb : wbRegion Gen.nf9ShardNo Gen.nf9Retrieve = true := by decide
 set_option maxRecDepth 100000 in
 theorem gen_nf9Dump_wb : wbRegion Gen.nf9ShardNo Gen.nf9Dump = true := by decide
+set_option maxRecDepth 100000 in
+/-- `Dump` is exactly: read-lock every shard in shard order, iterate every shard, release every shard -/
+theorem gen_ipfixDump_shape : isDumpRegion Gen.ipfixShardNo Gen.ipfixDump = true := by decide
+set_option maxRecDepth 100000 in
+theorem gen_nf9Dump_shape : isDumpRegion Gen.nf9ShardNo Gen.nf9Dump = true := by decide
+/-- `retrieve` takes its lock first and afterwards only reads and releases (two-phase, read-only) -/
+theorem gen_ipfixRetrieve_twoPhase : twoPhaseRegion Gen.ipfixShardNo Gen.ipfixRetrieve = true := by decide
+theorem gen_nf9Retrieve_twoPhase : twoPhaseRegion Gen.nf9ShardNo Gen.nf9Retrieve = true := by decide
 /-- `IRPC.Get` (peer lookup) reaches the cache only through `retrieve` -/
 theorem gen_ipfixIRPCGet : Gen.ipfixIRPCGet = [.once [.call "retrieve"]] := by decide
 /-- `RPC` (answer from a peer) reaches the cache only through `insert` -/
@@ -125,5 +135,172 @@ example : wbRegion 32 [.once [.marshalAll]] = false := by decide
 example : Race ⟨[⟨⟨[], []⟩, [.iter 0, .iter 1], []⟩, ⟨⟨[0], []⟩, [.wr 0 7 3, .unlock 0], []⟩],
                 fun _ _ => none⟩ :=
   ⟨1, 0, _, _, .wr 0 7 3, .iter 0, by decide, rfl, rfl, rfl, rfl, rfl⟩
+
+/-! ## (2) atomic visibility -/
+
+/-- **C10 (2), atomic visibility**: take any run and any lookup step in it (`rd s k` by thread `i`,
+taken in state `σ`, `pre` = the steps before it). Then
+* the lookup returns, and the thread records, `σ.mem s k` — nothing, or one whole value;
+* that is the value of the latest write to exactly that key in the step order (`lastWrite`);
+* at that instant no other thread is inside a write critical section of the shard, i.e.
+* every insert by another thread that had written into the shard before had also completed
+  (released the shard's lock): the value is that of the latest *completed* insert on that key. -/
+theorem lookup_atomic {init cur : Sys} {hist : List Ev} (h0 : Init init) (hr : Run init hist cur)
+    {post pre : List Ev} {σ : Sys} {i s k : Nat} (hs : hist = post ++ ⟨σ, i, .rd s k⟩ :: pre) :
+    (∃ σ' t t', Step σ i (.rd s k) σ' ∧ σ.threads[i]? = some t ∧ σ'.threads[i]? = some t' ∧
+        t'.obs = .got s k (σ.mem s k) :: t.obs) ∧
+    σ.mem s k = lastWrite init.mem pre s k ∧
+    (∀ j tj, j ≠ i → σ.threads[j]? = some tj → s ∉ tj.held.w) ∧
+    (∀ p2 p1 σ2 j k' v, j ≠ i → pre = p2 ++ ⟨σ2, j, .wr s k' v⟩ :: p1 →
+        ∃ e ∈ p2, e.tid = j ∧ e.act = .unlock s) := by
+  obtain ⟨hpre, σ', st⟩ := run_split hr post pre _ hs
+  have hinv := run_linv h0 hpre
+  obtain ⟨t, p, hi, hp, hi'⟩ := step_self st
+  have hexcl : ∀ j tj, j ≠ i → σ.threads[j]? = some tj → s ∉ tj.held.w := by
+    intro j tj hji hj hc
+    have w := hinv.wbAll t (List.mem_of_getElem? hi)
+    simp only at hp
+    rw [hp] at w
+    have := hinv.excl j i tj t s hj hi hji hc
+    rcases wb_rd w with h | h
+    · exact this.1 h
+    · exact this.2 h
+  refine ⟨⟨σ', t, _, st, hi, hi', rfl⟩, run_mem hpre s k, hexcl, ?_⟩
+  intro p2 p1 σ2 j k' v hji hsplit
+  apply Classical.byContradiction
+  intro hno
+  obtain ⟨tj, htj, hw⟩ := wrote_holds (linv_init h0) hpre p2 p1 σ2 j s k' v hsplit
+    (fun e he hc => hno ⟨e, he, hc⟩)
+  exact hexcl j tj hji htj hw
+
+/-- **C10 (2), not superseded**: if a write of `v2` to the key precedes the lookup's read (in
+particular: an insert that completed before the lookup began), the lookup returns `v2` or the value of
+a write that came after it — never an older one, never nothing -/
+theorem lookup_not_superseded {init cur : Sys} {hist : List Ev} (h0 : Init init) (hr : Run init hist cur)
+    {post mid old : List Ev} {σ σ2 : Sys} {i j s k : Nat} {v2 : Val}
+    (hs : hist = post ++ ⟨σ, i, .rd s k⟩ :: (mid ++ ⟨σ2, j, .wr s k v2⟩ :: old)) :
+    σ.mem s k = some v2 ∨ ∃ e ∈ mid, ∃ v, e.act = .wr s k v ∧ σ.mem s k = some v := by
+  have h := (lookup_atomic h0 hr hs).2.1
+  rw [h]
+  exact lastWrite_mid init.mem s k v2 σ2 j old mid
+
+/-! ## (3) dump consistency -/
+
+/-- **C10 (3), snapshot at the lock point** (general form): a thread that first takes all its locks
+(`acq`) and then only reads, iterates and releases (`rest`) has, at every point of every run, either
+recorded nothing yet, or there is **one** visited state `σ` such that everything it has recorded is
+exactly what executing the finished part `done` of `rest` against `σ`'s shard maps gives, and the
+shards it still holds have not changed since `σ` -/
+theorem snapshot_at_lock_point {init cur : Sys} {hist : List Ev} (h0 : Init init) (hr : Run init hist cur)
+    {i : Nat} {t0 : Thread} {acq rest : List Act} (hi0 : init.threads[i]? = some t0)
+    (hprog : t0.prog = acq ++ rest) (hacq : ∀ a ∈ acq, isAcq a = true) (hrest : ∀ a ∈ rest, quiet a = true) :
+    ∃ t, cur.threads[i]? = some t ∧
+      ((t.obs = [] ∧ ∃ acq', acq' ≠ [] ∧ t.prog = acq' ++ rest) ∨
+       (∃ σ done, Visited σ hist cur ∧ rest = done ++ t.prog ∧
+          (∀ s, (s ∈ t.held.w ∨ s ∈ t.held.r) → cur.mem s = σ.mem s) ∧
+          t.obs = (done.filterMap (obsOf σ.mem)).reverse)) :=
+  two_phase h0 hr hi0 hprog hacq hrest
+
+/-- **C10 (3), dump consistency**: a thread running the repaired `Dump` (`dumpProg n`: read-lock
+every shard, iterate every shard, release) in any system, under any schedule: once it has finished,
+what it has read is, shard by shard, the content of the whole cache at **one** instant `σ` of the
+run (so by C11 the file loads back as exactly those templates) -/
+theorem dump_consistent {init cur : Sys} {hist : List Ev} (h0 : Init init) (hr : Run init hist cur)
+    {n i : Nat} {t0 t : Thread} (hi0 : init.threads[i]? = some t0) (hprog : t0.prog = dumpProg n)
+    (hi : cur.threads[i]? = some t) (hfin : t.prog = []) :
+    ∃ σ, Visited σ hist cur ∧ t.obs = ((List.range n).map fun s => Obs.snap s (σ.mem s)).reverse := by
+  have hacq : ∀ a ∈ (List.range n).map Act.rlock, isAcq a = true := by
+    intro a ha; simp at ha; obtain ⟨s, _, rfl⟩ := ha; rfl
+  have hrest : ∀ a ∈ (List.range n).map Act.iter ++ (List.range n).map Act.runlock, quiet a = true := by
+    intro a ha; simp at ha
+    rcases ha with ⟨s, _, rfl⟩ | ⟨s, _, rfl⟩ <;> rfl
+  obtain ⟨t', ht', h⟩ := two_phase h0 hr hi0 (by rw [hprog]; rfl) hacq hrest
+  rw [hi] at ht'
+  injection ht' with ht'
+  subst ht'
+  rcases h with ⟨_, acq', hne, hp⟩ | ⟨σ, done, hv, hd, _, hobs⟩
+  · rw [hfin] at hp
+    cases acq' with
+    | nil => exact absurd rfl hne
+    | cons b bs => simp at hp
+  · refine ⟨σ, hv, ?_⟩
+    rw [hfin, List.append_nil] at hd
+    rw [hobs, ← hd]
+    congr 1
+    simp [List.filterMap_append, List.filterMap_map, Function.comp_def, obsOf]
+
+/-- the same for the `Dump` extracted from the current source, called on any cache of
+`Gen.ipfixShardNo` shards -/
+theorem ipfix_dump_consistent {init cur : Sys} {hist : List Ev} (h0 : Init init) (hr : Run init hist cur)
+    {i s k : Nat} {v : Val} {t0 t : Thread} (hs : s < Gen.ipfixShardNo) (hi0 : init.threads[i]? = some t0)
+    (hprog : progOf Gen.ipfixShardNo s k v Gen.ipfixDump = some t0.prog)
+    (hi : cur.threads[i]? = some t) (hfin : t.prog = []) :
+    ∃ σ, Visited σ hist cur ∧
+      t.obs = ((List.range Gen.ipfixShardNo).map fun s => Obs.snap s (σ.mem s)).reverse := by
+  have := isDumpRegion_sound gen_ipfixDump_shape (s := s) (k := k) (v := v) hs
+  rw [hprog] at this
+  injection this with this
+  exact dump_consistent h0 hr hi0 this hi hfin
+
+theorem nf9_dump_consistent {init cur : Sys} {hist : List Ev} (h0 : Init init) (hr : Run init hist cur)
+    {i s k : Nat} {v : Val} {t0 t : Thread} (hs : s < Gen.nf9ShardNo) (hi0 : init.threads[i]? = some t0)
+    (hprog : progOf Gen.nf9ShardNo s k v Gen.nf9Dump = some t0.prog)
+    (hi : cur.threads[i]? = some t) (hfin : t.prog = []) :
+    ∃ σ, Visited σ hist cur ∧
+      t.obs = ((List.range Gen.nf9ShardNo).map fun s => Obs.snap s (σ.mem s)).reverse := by
+  have := isDumpRegion_sound gen_nf9Dump_shape (s := s) (k := k) (v := v) hs
+  rw [hprog] at this
+  injection this with this
+  exact dump_consistent h0 hr hi0 this hi hfin
+
+/-! ## (4) deadlock freedom -/
+
+/-- **C10 (4), deadlock freedom**: in every state reachable by any schedule from well-bracketed
+threads (locks taken one at a time or in increasing shard order), if some thread has not finished
+then some thread can move — even under Go's writer preference (`StepStrict`: an `RLock` also waits
+for waiting writers) -/
+theorem no_deadlock {init cur : Sys} {hist : List Ev} (h0 : Init init) (hr : Run init hist cur)
+    (hne : ∃ t ∈ cur.threads, t.prog ≠ []) :
+    ∃ i a nxt, StepStrict cur i a nxt ∧ Step cur i a nxt := by
+  obtain ⟨i, a, nxt, h⟩ := deadlock_free (run_linv h0 hr) hne
+  exact ⟨i, a, nxt, h, stepStrict_step h⟩
+
+/-- every schedule terminates: steps taken + actions left = total program length -/
+theorem all_schedules_terminate {init cur : Sys} {hist : List Ev} (hr : Run init hist cur) :
+    hist.length + remaining cur = remaining init :=
+  run_length hr
+
+/-! ## Non-vacuity: a concrete run with a completed insert followed by a lookup -/
+
+private def m0 : Mem := fun _ _ => none
+private def s0 : Sys := ⟨[⟨⟨[], []⟩, [.lock 1, .wr 1 7 3, .unlock 1], []⟩,
+                          ⟨⟨[], []⟩, [.rlock 1, .rd 1 7, .runlock 1], []⟩], m0⟩
+private def s1 : Sys := after s0 0 ⟨⟨[], []⟩, [.lock 1, .wr 1 7 3, .unlock 1], []⟩ (.lock 1) [.wr 1 7 3, .unlock 1]
+private def s2 : Sys := after s1 0 ⟨⟨[1], []⟩, [.wr 1 7 3, .unlock 1], []⟩ (.wr 1 7 3) [.unlock 1]
+private def s3 : Sys := after s2 0 ⟨⟨[1], []⟩, [.unlock 1], []⟩ (.unlock 1) []
+private def s4 : Sys := after s3 1 ⟨⟨[], []⟩, [.rlock 1, .rd 1 7, .runlock 1], []⟩ (.rlock 1) [.rd 1 7, .runlock 1]
+private def s5 : Sys := after s4 1 ⟨⟨[], [1]⟩, [.rd 1 7, .runlock 1], []⟩ (.rd 1 7) [.runlock 1]
+
+theorem nonvacuity_s0_init : Init s0 := by
+  intro t ht
+  simp [s0] at ht
+  rcases ht with rfl | rfl <;> exact ⟨rfl, rfl, by decide⟩
+
+/-- the hypotheses of `lookup_atomic` and `lookup_not_superseded` are satisfiable: insert completes,
+then the lookup reads — and, as the theorems say, it sees the inserted value -/
+example : ∃ hist cur post pre σ, Run s0 hist cur ∧ hist = post ++ ⟨σ, 1, .rd 1 7⟩ :: pre ∧
+    σ.mem 1 7 = some 3 := by
+  have e0 : Step s0 0 (.lock 1) s1 := ⟨_, _, rfl, rfl, ⟨by
+      rintro ⟨t, ht, hs⟩; simp [s0] at ht; rcases ht with rfl | rfl <;> simp at hs, by
+      rintro ⟨t, ht, hs⟩; simp [s0] at ht; rcases ht with rfl | rfl <;> simp at hs⟩, rfl⟩
+  have e1 : Step s1 0 (.wr 1 7 3) s2 := ⟨_, _, rfl, rfl, trivial, rfl⟩
+  have e2 : Step s2 0 (.unlock 1) s3 := ⟨_, _, rfl, rfl, trivial, rfl⟩
+  have e3 : Step s3 1 (.rlock 1) s4 := ⟨_, _, rfl, rfl, by
+      rintro ⟨t, ht, hs⟩
+      simp [s3, s2, s1, s0, after, heldAfter] at ht
+      rcases ht with rfl | rfl <;> simp at hs, rfl⟩
+  have e4 : Step s4 1 (.rd 1 7) s5 := ⟨_, _, rfl, rfl, trivial, rfl⟩
+  refine ⟨_, s5, [], _, s4, Run.step (Run.step (Run.step (Run.step (Run.step Run.start e0) e1) e2) e3) e4, rfl, ?_⟩
+  simp [s4, s3, s2, s1, after, memAfter]
 
 end Vflow.C10
